@@ -4,6 +4,9 @@ import struct
 
 from checks import common
 
+# this check never reads lean/MjProof/Gen: no generated-code lock needed
+USES_GEN = False
+
 META = {
     "technique": "Lean 4 proof (termination = totality; intrinsic line bounds; validator <-> declarative well-formedness by induction over the use graph) + exact differential correspondence with doc/generate/mjcf_schema.py",
     "text": "Lean model of the lexer (all token classes, the `..` look-ahead, Unicode \\d), of the recursive-descent parser and of _validate/_check_group_cycle/_validate_attr, returning Except (line x class) Schema. "
